@@ -27,13 +27,14 @@ def exhaustive(tier):
 
 def cases(tier, seed):
     rng = np.random.default_rng([12, seed])
-    F, per = (3, 2) if tier == "quick" else (5, 24)
+    F, per = (3, 4) if tier == "quick" else (5, 24)
     out = []
-    for cellkind in ("ortho", "tri", "rotated"):
+    for ci, cellkind in enumerate(("ortho", "tri", "rotated")):
         for j in range(per):
             s = int(rng.integers(1 << 30))
             for dims in itertools.product(range(1, F + 1), repeat=3):
-                out.append({"cell": cellkind, "s": s, "dims": list(dims), "n": 1 + (s + j) % 7, "impropers": j % 2 == 0})
+                out.append({"cell": cellkind, "s": s, "dims": list(dims), "n": 1 + (s + j) % 7, "impropers": j % 2 == 0,
+                            "combo": (ci * per + j) * 7 % 16 if (ci * per + j) % 4 != 3 else None})
     return out
 
 
@@ -43,6 +44,11 @@ def run_case(case, ctx):
     dims = tuple(case["dims"])
     kinds = {"bond": int(rng.integers(0, 4)), "angle": int(rng.integers(0, 3)), "dihedral": int(rng.integers(0, 3)),
              "improper": (1 + int(rng.integers(0, 2))) if case["impropers"] else 0}
+    if case.get("combo") is not None:
+        # every combination of present / absent term kinds matters (e.g. angles or impropers without any bond: rigid water, planar centres)
+        present = [bool(case["combo"] >> b & 1) for b in range(4)]
+        case = dict(case, n=max(case["n"], 4))
+        kinds = {k: (max(1, kinds[k]) if p else 0) for k, p in zip(["bond", "angle", "dihedral", "improper"], present)}
     a = atomsgen.gen_atoms(rng, case["n"], tag="S", cell=case["cell"], kinds=kinds, max_terms=3, scale=6.0)
     snap = clone(a)
     m0 = AM.resolve(a)
@@ -56,6 +62,7 @@ def run_case(case, ctx):
         ctx.fail("replicate(%s) raised %s: %s" % (dims, type(e).__name__, e), witness={"dims": dims, "structure": atomsgen.describe(a)})
         return
     st.count("replications_checked")
+    st.seen("term_kinds_present", "".join("BADI"[i] if len(getattr(a, atomsgen.ARR[k])) else "-" for i, k in enumerate(atomsgen.KNAMES)))
     st.seen("cell_kind", case["cell"])
     st.seen("dims", list(dims))
     w = {"dims": dims, "structure": atomsgen.describe(a)}
@@ -155,6 +162,8 @@ def requirements(stats, tier):
         need.append("only %d of %d factor triples observed" % (stats.nseen("dims"), F ** 3))
     if stats.nseen("cell_kind") < 3:
         need.append("not all three cell classes observed")
+    if stats.nseen("term_kinds_present") < (8 if tier == "quick" else 14):
+        need.append("combinations of present/absent term kinds observed: %s" % sorted(stats.sets.get("term_kinds_present", [])))
     if stats.get("with_impropers") < 10:
         need.append("fewer than 10 replications of structures with impropers")
     return need
